@@ -112,13 +112,15 @@ class MetaWorld:
                     [(self.first, 0, res[self.first]), (self.second, 0, res[self.second])])
         assert r.ok, r
         # --- LP farm (setup_lp_farm): farm-with-locked-rewards, rewards locked by the energy factory
-        r = vm.deploy(own, "farm-with-locked-rewards", [MEX, LPT, top_u(10 ** 12), self.pair, own], new_addr=self.lpfarm)
+        # (pair address zero as in the repository's setup: the early-exit penalty is burned locally)
+        r = vm.deploy(own, "farm-with-locked-rewards", [MEX, LPT, top_u(10 ** 12), ZERO_ADDR, own], new_addr=self.lpfarm)
         assert r.ok, r
         vm.sset(self.lpfarm, b"farm_token_id", LPF)
         vm.roles(self.lpfarm, LPF, ["ESDTRoleNFTCreate", "ESDTRoleNFTAddQuantity", "ESDTRoleNFTBurn"])
         vm.roles(self.lpfarm, LPT, ["ESDTRoleLocalBurn"])
         calls = [("setLockingScAddress", [self.efact]), ("setLockEpochs", [top_u(LOCK_OPTIONS[2][0])]),
                  ("setEnergyFactoryAddress", [self.efact]), ("setPerBlockRewardAmount", [top_u(cfg["lp_rate"])]),
+                 ("set_minimum_farming_epochs", [top_u(cfg["minep"])]), ("set_penalty_percent", [top_u(cfg["pen"])]),
                  ("resume", []), ("startProduceRewards", [])]
         if cfg["boost"]:
             calls += [("setBoostedYieldsRewardsPercentage", [top_u(2500)]),
@@ -287,8 +289,7 @@ class MetaWorld:
         if k == "Stake":
             if pays and pays[0][0] == TK_LPF:
                 meas["liq"] = pays[0][2]
-            meas["parts"] = [part_of(self.dy_attrs[n], x) if n in self.dy_attrs else None for (n, x) in dy_pays[0:]] \
-                if pays and pays[0][0] != TK_DY else []
+            dy_pays = [(n, x) for (t, n, x) in pays[1:] if t == TK_DY]
         else:
             if len(pays) == 1 and pays[0][0] == TK_DY and pays[0][1] in self.dy_attrs:
                 meas["part"] = part_of(self.dy_attrs[pays[0][1]], pays[0][2])
@@ -299,7 +300,17 @@ class MetaWorld:
                 meas["safe"] = self.safe_view(meas["liq"])
                 meas["spot"] = self.spot_view(meas["liq"])
             else:
-                meas["quote"] = self.spot_view(meas["liq"])
+                # LP tokens the LP farm will hand back: the recorded part minus the early-exit penalty
+                fa = vm.attrs(self.proxy, LPF, meas["part"][0])
+                lp_out = meas["liq"]
+                if fa:
+                    d = Dec(fa)
+                    d.big()
+                    entered = d.u64()
+                    if self.ep - entered < self.cfg["minep"]:
+                        lp_out -= meas["liq"] * self.cfg["pen"] // 10000
+                meas["lp_out"] = lp_out
+                meas["quote"] = self.spot_view(lp_out) if lp_out > 0 else None
         if k == "Stake":
             r = vm.call(A[u], self.proxy, "stakeFarmTokens", extra, real_pays)
         elif k == "Claim":
@@ -332,13 +343,10 @@ class MetaWorld:
                 outs = [ret[0][2], ret[1][2], ret[2][1], ret[2][2]]
             elif k == "Unstake" and len(ret) == 4:
                 outs = [ret[0][2], ret[1][2], ret[2][2], ret[3][1], ret[3][2]]
-            # the recorded parts that left the proxy's balance
-            for (n, x), prt in zip(dy_pays, (meas.get("parts") if k == "Stake" else [meas["part"]]) or []):
-                pass
         meas["ret"] = ret
         env = self.measure_env(k, op, r.ok, meas, dproxy, duser, pays)
         if r.ok:
-            self.account_release(k, pays, dproxy)
+            meas["release"] = self.account_release(dy_pays, dproxy)
         o = self.observe()
         o.update(ok=r.ok, msg=r.msg, outs=outs, env=env, meas=meas, pre=pre)
         self.last = {x: o[x] for x in o if x not in ("pre", "meas")}
@@ -351,27 +359,31 @@ class MetaWorld:
         ups = sorted(((v, n) for (c, n), v in d.items() if c == code and v > 0), reverse=True)
         return (ups[0][1], ups[0][0]) if ups else (0, 0)
 
-    def account_release(self, k, pays, dproxy):
-        """history variable for the monitors: per dual-yield nonce, what the proxy's real balance lost
-        when units of that nonce were redeemed (attributed through the nonces recorded in the token)"""
-        dy = [(n, x) for (t, n, x) in pays if t == TK_DY]
-        # losses per farm-token nonce
-        lost = {(c, n): -v for (c, n), v in dproxy.items() if c in (TK_LPF, TK_SF) and v < 0}
-        for (n, x) in dy:
+    def account_release(self, dy_pays, dproxy):
+        """For the monitors.  Every redeemed dual-yield payment (n, p) should make the proxy's balance of
+        the farm tokens recorded in n drop by the recorded part.  Returns the expected and the real drop
+        per farm-token nonce and adds the REAL drops to the per-nonce history [released] (a farm nonce
+        shared by several payments of one transaction is split as expected when the total agrees,
+        otherwise booked on the first payment — the per-transaction monitor reports that case anyway)."""
+        exp, by = {}, {}
+        for (n, p) in dy_pays:
             a = self.dy_attrs.get(n)
-            if a is None:
+            prt = part_of(a, p) if a else None
+            if prt is None:
                 continue
-            rel = self.released.setdefault(n, [0, 0])
-            prt = part_of(a, x)
-            # attribute at most what really left; several payments on one farm nonce share the real loss in order
-            l = min(lost.get((TK_LPF, a[0]), 0), prt[1] if prt else 0) if len(dy) > 1 else lost.get((TK_LPF, a[0]), 0)
-            s = min(lost.get((TK_SF, a[2]), 0), x) if len(dy) > 1 else lost.get((TK_SF, a[2]), 0)
-            if (TK_LPF, a[0]) in lost:
-                lost[(TK_LPF, a[0])] -= l
-            if (TK_SF, a[2]) in lost:
-                lost[(TK_SF, a[2])] -= s
-            rel[0] += l
-            rel[1] += s
+            for key, amt in (((TK_LPF, a[0]), prt[1]), ((TK_SF, a[2]), p)):
+                exp[key] = exp.get(key, 0) + amt
+                by.setdefault(key, []).append((n, amt))
+        real = {key: -v for key, v in dproxy.items() if key[0] in (TK_LPF, TK_SF) and v < 0}
+        for key, lst in by.items():
+            got = real.get(key, 0)
+            idx = 0 if key[0] == TK_LPF else 1
+            if got == exp[key]:
+                for n, amt in lst:
+                    self.released.setdefault(n, [0, 0])[idx] += amt
+            else:
+                self.released.setdefault(lst[0][0], [0, 0])[idx] += got
+        return dict(expected={f"{c}:{n}": v for (c, n), v in exp.items()}, real={f"{c}:{n}": v for (c, n), v in real.items()})
 
     def measure_env(self, k, op, ok, meas, dproxy, duser, pays):
         """the environment's answers of this transaction as the model's env record (dict).  For a failed
@@ -478,7 +490,7 @@ def gen_cfg(rng):
     boost = rng.random() < 0.7
     return dict(stk_first=rng.random() < 0.5, r_stk=r_stk, r_oth=r_oth, fee=rng.choice([300, 300, 0, 1000]),
                 lp_rate=rng.choice([5000, 10 ** 6, 10 ** 12]), stk_rate=rng.choice([1000, 10 ** 6, 10 ** 15]),
-                apr=rng.choice([5000, 10000, 2500]), boost=boost,
+                apr=rng.choice([5000, 10000, 2500]), boost=boost, minep=rng.choice([0, 2, 3]), pen=rng.choice([0, 10, 100, 300]),
                 energy={str(u): log_amount(rng, 10 ** 12, 1000) for u in range(1, NUSERS + 1) if boost and rng.random() < 0.8},
                 seed_lp=seed_lp)
 
@@ -550,7 +562,7 @@ def gen_op(rng, w):
     if m > 0.8:
         a = w.dy_attrs.get(n)
         prt = part_of(a, amt) if a else None
-        q = w.spot_view(prt[1]) if prt and prt[1] > 0 else None
+        q = w.spot_view(prt[1] - (prt[1] * w.cfg["pen"] // 10000 if rng.random() < 0.5 else 0)) if prt and prt[1] > 0 else None
         if q:
             m1 = max(0, q[1] + rng.choice([-1, 0, 0, 1]))
             m2 = max(0, q[3] + rng.choice([0, 0, 0, 1]))
@@ -569,8 +581,7 @@ def gen_malformed(rng, w, users, lpf, dy):
     if kind == 2 and some_dy:
         return ["Claim", u, [[TK_DY, some_dy[0], max(1, some_dy[1] // 2)], [TK_DY, some_dy[0], 1]], False]
     if kind == 3 and some_lpf:
-        return [rng.choice(["Claim", "Unstake"]), u, [[TK_LPF, some_lpf[0], rng.randint(1, some_lpf[1])]]] + \
-               ([] if False else []) + [False] if False else _mal_single(rng, u, [TK_LPF, some_lpf[0], rng.randint(1, some_lpf[1])])
+        return _mal_single(rng, u, [TK_LPF, some_lpf[0], rng.randint(1, some_lpf[1])])
     if kind == 4 and some_dy:
         k = rng.choice(["Claim", "Unstake", "Stake"])
         p = [[TK_DY, some_dy[0], rng.randint(1, some_dy[1])]]
